@@ -102,6 +102,7 @@ type CheckOutcome struct {
 	Notes      []string
 	Trusted    []string
 	Exit       int
+	Unreachable []string
 	Wall       float64
 	LoadS      float64
 	GenS       float64
@@ -443,7 +444,7 @@ func runCheck(o checkOpts) *CheckOutcome {
 	if o.tier != "thorough" {
 		var f []*Oblig
 		for _, ob := range obs {
-			if ob.Kind == "cover" {
+			if ob.Kind == "cover-info" {
 				continue
 			}
 			f = append(f, ob)
@@ -520,6 +521,11 @@ func runCheck(o checkOpts) *CheckOutcome {
 		if r.OK {
 			continue
 		}
+		if r.O.Kind == "cover-info" {
+			out.Unreachable = append(out.Unreachable, fmt.Sprintf("%s: %s", r.O.Name, r.Res.Status))
+			r.OK = true
+			continue
+		}
 		if r.O.Expect == "sat" {
 			// vacuity guard tripped
 			out.EngineErrs = append(out.EngineErrs, fmt.Sprintf("vacuity: %s is %s (contradictory assumptions?)", r.O.Name, r.Res.Status))
@@ -542,7 +548,7 @@ func runCheck(o checkOpts) *CheckOutcome {
 			have[r.O.Name] = true
 		}
 		for _, name := range lock {
-			if strings.Contains(name, "#cover[") && o.tier != "thorough" {
+			if strings.Contains(name, "#cover[return") && o.tier != "thorough" {
 				continue
 			}
 			if !have[name] {
@@ -679,6 +685,7 @@ func writeEvidence(o checkOpts, pc *PropConfig, out *CheckOutcome, p *Prog) {
 			"bounded":                  pc.Bounded,
 			"not_decided":              pc.NotDecided,
 			"known_findings_seen":      out.Known,
+			"returns_not_shown_reachable": out.Unreachable,
 			"contracts_source":         contractsSource,
 			"imprecision_notes":        out.Notes,
 			"engine_errors":            out.EngineErrs,
